@@ -55,30 +55,18 @@ pub fn code_view(g: &ModuleGraph) -> Value {
     "slots": slots,
     "redirects": g.redirects.iter().map(|(k, v)| (k.to_string(), json!(v.as_str()))).collect::<serde_json::Map<_, _>>(),
     "code_edges": edges,
-    "valid": match g.valid() { Ok(()) => json!("ok"), Err(e) => json!(format!("invalid: {}", first_line(&e.to_string()))) },
+    // the verdict only: which of several failures is reported first follows
+    // the dependency order, which the statement does not promise
+    "valid": match g.valid() { Ok(()) => json!("ok"), Err(_) => json!("invalid") },
     "has_node_specifier": g.has_node_specifier,
   })
 }
 
-fn first_line(s: &str) -> String {
-  s.lines().next().unwrap_or("").to_string()
-}
 
-fn body(n_specs: usize, max_edges: usize, cost: bool) -> impl Fn(&Ch) -> Run + Sync + Send {
+fn body(space: Space) -> impl Fn(&Ch) -> Run + Sync + Send {
   move |ch: &Ch| {
     let mut run = Run::default();
-    let world = World::generate(
-      ch,
-      &GenOpts {
-        n_specs,
-        max_edges,
-        special_targets: true,
-        allow_remote: true,
-        kinds: KINDS,
-        deviation_cost: cost,
-        max_roots: 2,
-      },
-    );
+    let world = space.generate(ch, 2, None);
     if world.has_source_phase_clobber() {
       // excluded here; reported once, under C01 (see DESIGN.md findings)
       run.state_key = world.key();
@@ -236,25 +224,40 @@ pub fn prop(tier: Tier) -> Prop {
   let parts = match tier {
     Tier::Quick => vec![Part {
       name: "worlds",
-      body: Box::new(body(3, 2, true)),
+      body: Box::new(body(Space::generic(3, 2))),
       modes: vec![Mode::Deviations(2), Mode::Deviations(3), Mode::Deviations(4)],
       what: "3-specifier worlds, <= 2 import edges, deviation-bounded from the all-TypeScript base world",
     }],
     Tier::Thorough => vec![
       Part {
         name: "worlds",
-        body: Box::new(body(3, 3, true)),
+        body: Box::new(body(Space::generic(3, 3))),
         modes: vec![Mode::Deviations(3), Mode::Deviations(4), Mode::Deviations(5)],
         what: "3-specifier worlds, <= 3 import edges, deviation-bounded",
       },
       Part {
         name: "worlds4",
-        body: Box::new(body(4, 3, true)),
+        body: Box::new(body(Space::generic(4, 3))),
         modes: vec![Mode::Deviations(3), Mode::Deviations(4)],
         what: "4-specifier worlds, <= 3 import edges, deviation-bounded",
       },
     ],
   };
+  let mut parts = parts;
+  match tier {
+    Tier::Quick => parts.push(Part {
+      name: "core",
+      body: Box::new(body(Space::core(3, 3, CORE_KINDS_QUICK))),
+      modes: vec![Mode::Full],
+      what: "every world over the core alphabet, enumerated completely: 3 specifiers (root TypeScript, others TypeScript or missing), <= 3 edges from {import, dynamic import, import type}",
+    }),
+    Tier::Thorough => parts.push(Part {
+      name: "core",
+      body: Box::new(body(Space::core(3, 3, CORE_KINDS))),
+      modes: vec![Mode::Full],
+      what: "every world over the core alphabet, enumerated completely: 3 specifiers (kinds TypeScript / missing / JavaScript / JSON / redirect), <= 3 edges from {import, dynamic import, import type}",
+    }),
+  }
   Prop {
     id: "C17",
     rule: "state = (world, root set): entry kinds (ts/js/d.ts/tsx/jsx/json/missing/redirect/txt/content-type-typed/external/loader-error/wasm/unparsable) x import attribute per target x import edges (form from the kind's form alphabet, target incl. node:/npm:/data:/bare/http-downgrade/file-literal) x local|remote x x-typescript-types header; per state 3 option sets (is_dynamic root, unstable text/bytes on/off; skip_dynamic_deps stays off: pruning cannot know about it). All-kind graph + prune_types() is compared with a CodeOnly build. Non-trivial = world with at least one edge of a non-default form.".into(),
